@@ -63,6 +63,8 @@ _FORBIDDEN_NATIVE = set([_time.sleep, builtins.input, builtins.exec, builtins.ev
 
 
 def m_len(I_, args, kws, st, ctx, k, node):
+  from .models import gobj
+  args = [gobj(st, a) for a in args]
   (v,) = args
   if isinstance(v, Union):
     return I_.split(v, st, lambda st2, x: m_len(I_, [x], kws, st2, ctx, k, node))
